@@ -881,7 +881,7 @@ class math:
     def _sign(value):
         return np.sign(value)
 
-    sign = Function(_sign)
+    sign = Function(_sign, derivatives=[Constant(0)])
 
     # neg
     def _neg(value):
